@@ -14,18 +14,24 @@ import ident_rules  # noqa: E402
 
 PID = "C10"
 MANIFEST = {
-    "text": "Coq theorems over a transcription of pest's Pratt parser and pairs_to_expr_inner on token streams: the "
-            "Pratt table built from the rows regenerated from precedence.rs refines the hand-written specification "
-            "table (all 34 operator rules); every tree is recovered from every rendering that carries at least the "
-            "parentheses the specification table requires (minimal, fully parenthesised, any redundant layers; "
-            "unbounded induction); word/symbol spellings parse alike; model tied to the code by an exhaustive PARSE "
-            "correspondence (all operator pairs, triples, affix combinations, random deep trees) and layout / "
-            "identifier / spelling searches on the real parser",
-    "note": "trusted: Coq kernel + vm_compute; translate/prec_table.py (reads precedence.rs, expressions.rs map_infix/"
-            "map_prefix arms, pest PREC_STEP; cross-checked against operator_info of the built crate); hand "
-            "transcription of pest 2.8.3 pratt_parser.rs and of pairs_to_expr_inner (validated by the PARSE "
-            "correspondence); the character level (pest PEG: whitespace, newlines, comments, identifiers) is decided "
-            "by correspondence and search on the real parser, not by proof; no axioms",
+    "text": "15 Coq theorems. Token level (transcription of pest's Pratt parser and pairs_to_expr_inner over token "
+            "streams, table regenerated from precedence.rs / expressions.rs / pest on every run): the Pratt table built "
+            "from the generated rows refines the hand-written specification table (all 34 operator rules); every tree "
+            "the parser can produce is recovered from EVERY rendering that carries at least the parentheses the "
+            "specification table requires (minimal, fully parenthesised, any redundant layers, either spelling of not; "
+            "unbounded induction, explicit fuel bound), hence minimal and full forms parse identically and the table is "
+            "unambiguous; comments never change the conversion of ANY token stream; every output of the parser is in the "
+            "domain of the round trip; word/symbol spellings share Pratt entry and evaluator class. Character level "
+            "(rules regenerated from grammar.pest): every plain name other than a reserved word is read whole as an "
+            "identifier (symbolic in the name) and every symbol operator written without blanks is read as itself, each "
+            "with the exclusion of one open known finding and a refutation lemma. Model tied to the code by exhaustive "
+            "PARSE correspondence (all operator pairs, affix combinations, triples) and random deep trees; layout, "
+            "identifier, spelling and grouping searches on the real parser",
+    "note": "trusted: Coq kernel + vm_compute; translate/prec_table.py and translate/ident_rules.py (source text -> "
+            "tables; shape-checked, cross-checked against operator_info of the built crate and against the real parser "
+            "by the PARSE / IDENT-model / LEX-after streams); hand transcription of pest 2.8.3 pratt_parser.rs and of "
+            "pairs_to_expr_inner; blanks, line breaks, comment placement and trailing commas are decided by exhaustive "
+            "single-gap and random layout searches on the real parser, not by proof (no full PEG model); no axioms",
     "design_ref": "DESIGN.md section 6 C10; notes/C10.md",
 }
 REQ = ["Blots.Num", "Blots.gen.Builtins", "Blots.Ast", "Blots.Outcome", "Blots.PrattTypes", "Blots.gen.PrecTable",
@@ -784,12 +790,19 @@ def main(argv):
     try:
         info = regen_prec(h)
         res.streams["translator"] = info
-        res.streams["translator-ident"] = regen_ident()
     except c.BrokenTie as e:
         # the table / glue can no longer be read: no model run; go on to the searches on the
         # implementation alone to look for a concrete failing input
         res.tie_broken(e.what, e.detail)
         model_ok = False
+    ident_ok = True
+    try:
+        res.streams["translator-ident"] = regen_ident()
+    except c.BrokenTie as e:
+        # the character-level rules can no longer be read: the token-level model still runs (with the
+        # stale gen/IdentRules.v only so that the Coq files compile); the name / operator models do not
+        res.tie_broken(e.what, e.detail)
+        ident_ok = False
     bad_ids = [x for x in g.IDENTS if x in builtin_names]
     if bad_ids:
         res.tie_broken("generator identifiers collide with built-in names", ",".join(bad_ids))
@@ -834,7 +847,7 @@ def main(argv):
     evaluations += triple_search(h, res)
     evaluations += small_layout_search(h, res)
     evaluations += search_stream(h, res, rng, meta, 2 if tier == "quick" else 4)
-    evaluations += ident_stream(h, res, rng, tier, builtin_names, model_ok)
+    evaluations += ident_stream(h, res, rng, tier, builtin_names, model_ok and ident_ok)
     evaluations += spelling_stream(h, res, rng)
 
     lap(res, "searches")
